@@ -28,7 +28,7 @@ from math import gcd
 from ..lib.core import RuleResult, Finding, short
 from ..lib import ast as A
 
-CLASSES = ('amc::vec::VectorImpl', 'amc::vec::StaticVector', 'amc::vec::DynamicVector')
+CLASSES = ('amc::vec::VectorImpl', 'amc::vec::StaticVector', 'amc::vec::DynamicVector', 'amc::Vector')
 BEGIN = {'begin', 'cbegin', 'dynStorage', 'data', 'mbegin'}
 END = {'end', 'cend', 'mend'}
 TOP = ('top',)
@@ -619,6 +619,8 @@ class Interp:
         k = n.get('k')
         if k == 'paren':
             return self.cond(n.get('sub'), fr)
+        if k == 'call' and A.callee(n) == '__builtin_expect' and n.get('args'):
+            return self.cond(n['args'][0], fr)
         if k == 'un' and n.get('op') == '!':
             return not self.cond(n.get('sub'), fr)
         if k == 'bin' and n.get('op') == '&&':
@@ -634,6 +636,11 @@ class Interp:
                 if len(ops) != 2:
                     raise Unknown('comparison operator with %d operands' % len(ops))
                 a, b = self.ev(ops[0], fr), self.ev(ops[1], fr)
+            if {a[0], b[0]} == {'this', 'addr'} and op in ('==', '!='):
+                oth = a if a[0] == 'addr' else b
+                if fr.env.get(oth[1]) == ('other',):
+                    # self-assignment is the identity; the paths of interest are those with two distinct vectors
+                    return self.m.choose([(op == '!=', [])])
             if a[0] == b[0] and a[0] in ('int', 'ptr', 'src'):
                 d = ladd(a[1], b[1], -1)          # a - b
                 one = lconst(-1)
@@ -758,6 +765,11 @@ class Interp:
             for a in args:
                 self.ev(a, fr)
             return TOP
+        # the other vector of a copy constructor / copy assignment: a source range of D elements
+        if n.get('method') and not args and n.get('obj') is not None and sn in BEGIN | END | {'size'}:
+            o = self.ev(n.get('obj'), fr)
+            if o == ('other',):
+                return ('src', {}) if sn in BEGIN else (('src', {'D': 1}) if sn in END else ('int', {'D': 1}))
         # initializer_list
         if n.get('method') and (n.get('clsq') or '') == 'std::initializer_list' and not args:
             o = self.ev(n.get('obj'), fr)
@@ -1151,6 +1163,35 @@ def spec_of(f, E):
     def isil(p):
         return 'initializer_list' in p['t']
     n = len(ps)
+
+    def isother(p):
+        t = p['t'].replace('const ', '').strip()
+        return t.startswith('amc::Vector<') and t.endswith('&') and not t.endswith('&&')
+
+    def isalloc(p):
+        return 'lloc' in p['t'] and not isother(p)
+    if f.get('clsq') == 'amc::Vector':
+        q = [p for p in ps if not isalloc(p)]
+        tail = ['alloc'] * (len(ps) - len(q))
+        if len(ps) != len(q) and ps[:len(q)] != q:
+            return None
+        if f.get('kind') == 'ctor':
+            if len(q) == 1 and isother(q[0]):
+                return 'ctor_range', ['other'] + tail
+            if len(q) == 1 and isil(q[0]):
+                return 'ctor_range', ['ilist'] + tail
+            if len(q) == 1 and isint(q[0]):
+                return 'ctor_vinit', ['count'] + tail
+            if len(q) == 2 and isint(q[0]) and not isint(q[1]):
+                return 'ctor_n', ['count', 'val'] + tail
+            if len(q) == 2 and not isint(q[0]) and not isother(q[0]) and q[0]['t'] == q[1]['t'] and '&&' not in q[0]['t']:
+                return 'ctor_range', ['first', 'srclast'] + tail
+            return None
+        if nm == 'operator=' and len(ps) == 1 and isother(ps[0]):
+            return 'assign_range', ['other']
+        if nm == 'operator=' and len(ps) == 1 and isil(ps[0]):
+            return 'assign_range', ['ilist']
+        return None
     if nm == 'insert':
         if n == 2 and isptr(ps[0]) and isil(ps[1]):
             return 'insert_range', ['pos', 'ilist']
@@ -1230,6 +1271,8 @@ def expected(kind, m):
         return [(Z, C_, VAL)], C_
     if kind == 'assign_range':
         return [(Z, D_, new(Z))], D_
+    if kind in ('ctor_vinit', 'ctor_n', 'ctor_range'):
+        kind = {'ctor_vinit': 'append_vinit', 'ctor_n': 'append_n', 'ctor_range': 'append_range'}[kind]
     if kind == 'append_vinit':
         return [(Z, N_, old()), (N_, ladd(N_, C_), VINIT)], ladd(N_, C_)
     if kind == 'append_n':
@@ -1240,6 +1283,8 @@ def expected(kind, m):
 
 
 SPEC_TEXT = {
+    'ctor_vinit': 'C value-initialised elements, size C', 'ctor_n': 'C copies of the value, size C',
+    'ctor_range': 'the D elements of the range / of the other vector in order, size D',
     'insert_one': 'old [0,P) . the new element at P . old shifted by one [P+1,N+1), size N+1',
     'insert_n': 'old [0,P) . C copies of the value [P,P+C) . old shifted by C [P+C,N+C), size N+C',
     'insert_range': 'old [0,P) . the D elements of the range in order [P,P+D) . old shifted by D [P+D,N+D), size N+D',
@@ -1311,8 +1356,13 @@ def explore(prog, f, E, kind, roles, limit=4000):
             elif r == 'ilist':
                 fr.env[('p', i)] = ('ilist',)
                 m.cons.append(dict(D_))
+            elif r == 'other':
+                fr.env[('p', i)] = ('other',)
+                m.cons.append(dict(D_))
         if kind == 'pop':
             m.cons.append(ladd(N_, lconst(-1)))
+        if kind.startswith('ctor_'):
+            m.cons.append(lneg(N_))                       # a vector under construction is empty
         ip = Interp(m)
         try:
             try:
